@@ -6,8 +6,7 @@ C38 — CNI delete is idempotent and leaves no address behind.
 `ReleaseByHandle(handle id)` then `ReleaseByHandle(workload id)` over the C19 store,
 executed through `Cas.step`, with a datastore error possible at EVERY backend call
 (`fs` = arbitrary fault flags).  The start state is ANY state reachable by ANY
-history of the C19 model (any adds, failed or partial adds, crashes, other clients)
-in which the known releaseByHandle stale-delete defect (C19) did not occur.
+history of the C19 model (any adds, failed or partial adds, crashes, other clients).
 -/
 namespace CalicoVerif.C38
 open CalicoVerif.Cas CalicoVerif.C19
@@ -30,17 +29,17 @@ theorem delSeq_ok (imm : Bool) (t h1 h2 : Nat) (o1 o2 : List Nat) (s : St) (fs :
     cases r2 <;> simp_all
   · simp at hok
 
-/-- After any history, a DEL that succeeds (whatever errors were injected on the way of
-earlier attempts and wherever) leaves no address allocated under either of the
-container's handles, in any block. -/
+/-- After ANY history of the C19 model (any adds, failed or partial adds, crashes, other
+clients), a DEL that succeeds, whatever errors were injected and wherever, leaves no
+address allocated under either of the container's handles, in any block. -/
 theorem del_leaves_nothing (r0 nb : Nat) (evs : List Ev) (s : St)
-    (hrun : run (St.init r0 nb) evs = some s) (hst : s.stale = 0)
+    (hrun : run (St.init r0 nb) evs = some s)
     (imm : Bool) (t h1 h2 : Nat) (hh1 : h1 ≠ 0) (hh2 : h2 ≠ 0) (o1 o2 : List Nat) (fs : List Bool)
     (hc1 : Covers s h1 o1)
     (hc2 : Covers (relByHandleSeq imm t h1 o1 s fs).1 h2 o2)
     (hok : (delSeq imm t h1 h2 o1 o2 s fs).2 = true) :
     ∀ b, liveAt (delSeq imm t h1 h2 o1 o2 s fs).1 b h1 = 0 ∧ liveAt (delSeq imm t h1 h2 o1 o2 s fs).1 b h2 = 0 := by
-  have hP : P s := ⟨inv_run (inv_init r0 nb) hrun, hst⟩
+  have hP : P s := inv_run (inv_init r0 nb) hrun
   have sp1 := relByHandle_spec imm t h1 hh1 o1 s fs hP hc1
   have hP1 := P_relByHandleSeq imm t h1 o1 s fs hP
   have sp2 := relByHandle_spec imm t h2 hh2 o2 _ (relByHandleSeq imm t h1 o1 s fs).2.1 hP1 hc2
@@ -163,14 +162,24 @@ theorem del_idempotent (imm : Bool) (t h1 h2 : Nat) (o1 o2 : List Nat) (s : St) 
     · exact (k1 []).2.1
     · rw [(k1 []).1, (k1 []).2.2]; exact (k2 []).2.1
 
-/-- A successful ADD holds an address for every requested family (finite table: 32 rows). -/
-theorem add_success_all_families (w4 w6 e g4 g6 : Bool) (h : (addDecision w4 w6 e g4 g6).ok = true) :
+/-- Every state a ReleaseByHandle passes through keeps the C19 invariants. -/
+theorem relByHandle_keeps_invariants (imm : Bool) (t h : Nat) (order : List Nat) (s : St) (fs : List Bool)
+    (hP : P s) : P (relByHandleSeq imm t h order s fs).1 :=
+  P_relByHandleSeq imm t h order s fs hP
+
+/-- cmdAdd's DECISION TABLE (finite: 32 rows), not a statement about the store: given what
+AutoAssign reported (`g4`/`g6` = "an address of that family was returned"), cmdAdd
+reports success only if every requested family was returned one.  That the returned
+address is then live in the store is C19's `recorded_by_own_cas` at the moment of the
+write; that it is still held when ADD returns is checked on the real code by the
+harness oracle (`add-missing-family`), not proved. -/
+theorem add_decision_table (w4 w6 e g4 g6 : Bool) (h : (addDecision w4 w6 e g4 g6).ok = true) :
     (w4 = true → g4 = true) ∧ (w6 = true → g6 = true) := by
   revert h; cases w4 <;> cases w6 <;> cases e <;> cases g4 <;> cases g6 <;> decide
 
-/-- "All families or none", the part that holds: when AutoAssign itself reported no error, a
-failed ADD rolls back every address it was given. -/
-theorem add_all_families_or_none_partial (w4 w6 g4 g6 : Bool) (h : (addDecision w4 w6 false g4 g6).ok = false) :
+/-- Decision table, "all families or none", the part that holds: when AutoAssign itself
+reported no error, a failed ADD asks for the rollback (ReleaseIPs) of every address it was given. -/
+theorem add_decision_rollback_partial (w4 w6 g4 g6 : Bool) (h : (addDecision w4 w6 false g4 g6).ok = false) :
     (w4 = true → g4 = true → (addDecision w4 w6 false g4 g6).rel4 = true) ∧
     (w6 = true → g6 = true → (addDecision w4 w6 false g4 g6).rel6 = true) := by
   revert h; cases w4 <;> cases w6 <;> cases g4 <;> cases g6 <;> decide
@@ -180,6 +189,34 @@ assigned (e.g. the IPv6 assignment hit a datastore error), cmdAdd returns the er
 WITHOUT rolling the IPv4 address back — the failed ADD keeps an address until DEL. -/
 theorem failed_add_may_retain : (addDecision true true true true false) = { ok := false, rel4 := false, rel6 := false } := by
   decide
+
+/-- Store-level ADD: take ANY reachable state, let the ADD for handle `h` perform ANY sequence
+of events none of which is a release (`addEv`: claims, affinity writes, handle
+increments, allocations for `h`, deletes of empty blocks — the driver checks that the
+real successful ADDs consist of such events only).  Then every address the ADD has
+recorded (what AutoAssign returns, `Cas.got`) is live for `h` when the ADD returns.
+So with `fam` splitting the blocks into families: if cmdAdd's decision table reports
+success and "AutoAssign returned an address of family f" means "the thread recorded an
+address in a block of family f", every requested family holds an address of `h`. -/
+theorem add_success_all_families (r0 nb : Nat) (evs0 evs : List Ev) (s0 s1 : St)
+    (hr0 : run (St.init r0 nb) evs0 = some s0) (h t : Nat) (hh : h ≠ 0)
+    (hadd : ∀ e ∈ evs, addEv h e = true) (hr1 : run s0 evs = some s1)
+    (fam : Nat → Bool) (w4 w6 e g4 g6 : Bool)
+    (hg4 : g4 = true → ∃ b o, fam b = false ∧ (b, o) ∈ s1.got t ∧ (b, o) ∉ s0.got t)
+    (hg6 : g6 = true → ∃ b o, fam b = true ∧ (b, o) ∈ s1.got t ∧ (b, o) ∉ s0.got t)
+    (hok : (addDecision w4 w6 e g4 g6).ok = true) :
+    (w4 = true → ∃ b, fam b = false ∧ 1 ≤ liveAt s1 b h) ∧
+    (w6 = true → ∃ b, fam b = true ∧ 1 ≤ liveAt s1 b h) := by
+  have hw0 : AllWF s0 := (inv_run (inv_init r0 nb) hr0).1
+  have key := add_recorded_stays_live h hh evs s0 s1 hw0 hadd hr1 t
+  have tab := add_decision_table w4 w6 e g4 g6 hok
+  constructor
+  · intro hw
+    obtain ⟨b, o, hf, hin, hnot⟩ := hg4 (tab.1 hw)
+    exact ⟨b, hf, key b o hin hnot⟩
+  · intro hw
+    obtain ⟨b, o, hf, hin, hnot⟩ := hg6 (tab.2 hw)
+    exact ⟨b, hf, key b o hin hnot⟩
 
 /-- non-vacuity: a DEL over a store holding two addresses of the container. -/
 example : ∃ s, run (St.init 100 2)
